@@ -81,7 +81,7 @@ def run(rep, tier, seed):
     rnd = rng_for(seed, 'C09')
     b = Batch(rep)
     from schc_run import parser_for
-    n = 250 if tier == 'quick' else 3000
+    n = 600 if tier == 'quick' else 6000
     items = []
     for i in range(n):
         stack, pkt, st, pd = gen_parsed(rnd, STACKS[i % len(STACKS)])
